@@ -289,6 +289,61 @@ def rule_compare_every_byte_read(ctx):
     r.floor(2)
 
 
+def rule_input_read_complete(ctx):
+    """the bytes that are formatted are the bytes of the file / of stdin - all of them.  A short read is not the end of the
+    input (pipes deliver data in pieces) and a read error is not either"""
+    db = ctx.db
+    r = ctx.rule("input-read-complete", "read_stdin(): the reading loop is left only through feof(stdin) / ferror(stdin), and a pending "
+                 "ferror(stdin) makes the function fail; load_mem_file(): the file is read by one fread(buf, size, 1, f) whose result != 1 "
+                 "ends the run, and the buffer is not resized after the read")
+    f = db.fn("read_stdin", file=UNC)
+    reads = [n for n in f.all_nodes() if n["k"] == "call" and n.get("c") in ("fread", "read", "fgets", "getc", "fgetc")]
+    r.require(len(reads) >= 1, "read_stdin: no read call found")
+    for rdn in reads:
+        loops = [(h, body) for h, body, _ in f.loops() if f.nblock[rdn["i"]] in body]
+        r.check(bool(loops), "read_stdin/%s-in-a-loop" % rdn["c"], db.loc(f, rdn), "stdin is read once, not until its end")
+        if not loops:
+            continue
+        h, body = max(loops, key=lambda x: len(x[1]))
+        bad = []
+        for b in body:
+            for i, s2 in enumerate(f.succ[b]):
+                if s2 >= 0 and s2 not in body:
+                    t = f.blocks[b].get("term")
+                    c = expr_str(f, t.get("lc", t.get("c"))) if t and t.get("c") is not None else "(unconditional)"
+                    if not re.match(r"^!?(feof|ferror)\(stdin\)$", c):
+                        bad.append(c)
+        r.seen()
+        r.check(not bad, "read_stdin/loop-ends-only-at-eof-or-error", db.loc(f, rdn), "the loop that reads stdin can also be left under %s: a short read "
+                "(a pipe that runs dry for a moment) is taken for the end of the input" % bad)
+        cond_txt = " ".join(expr_str(f, f.blocks[b]["term"].get("lc", f.blocks[b]["term"].get("c"))) for b in body if f.blocks[b].get("term") and f.blocks[b]["term"].get("c") is not None)
+        r.check("ferror(stdin)" in cond_txt, "read_stdin/loop-stops-on-error", db.loc(f, rdn), "a read error does not end the loop: fread() returns 0, feof() "
+                "stays false and the loop never ends")
+    fails = [n for n in f.all_nodes() if n["k"] == "ret" and n.get("a") and (f.nodes.get(n["a"][0]) or {}).get("k") == "bool" and not f.nodes[n["a"][0]]["v"]
+             and ("ferror(stdin)", True) in [(expr_str(f, cn), pol) for cn, pol in f.guard_conds(f.nblock[n["i"]]) if cn is not None]]
+    r.check(bool(fails), "read_stdin/error-fails", db.loc(f, f.l0), "a read error on stdin does not make read_stdin() fail: the prefix read so far is formatted")
+    g = db.fn("load_mem_file", file=UNC)
+    fr = [n for n in g.all_nodes() if n["k"] == "call" and n.get("c") in ("fread", "read")]
+    r.require(len(fr) == 1, "load_mem_file: %d read calls" % len(fr))
+    x = fr[0]
+    args = [expr_str(g, a) for a in x.get("a", ())]
+    r.check(x["c"] == "fread" and len(args) == 4 and args[1].replace("this->", "") in ("fm.raw.size()", "(size_t)my_stat.st_size", "my_stat.st_size") and args[2] == "1",
+            "load_mem_file/one-item-of-the-whole-size", db.loc(g, x), "the file is not read as one item of its whole size: `%s` - a short count can then "
+            "pass for success" % expr_str(g, x["i"])[:80])
+    # its failure ends the run
+    ok_fail = False
+    for b, blk in g.blocks.items():
+        t = blk.get("term")
+        c = t.get("lc", t.get("c")) if t else None
+        if c is not None and len(g.succ[b]) == 2 and "fread(" in expr_str(g, c) and expr_str(g, c).endswith("!= 1"):
+            ok_fail = g.paths_avoiding(g.succ[b][0], lambda n: n["k"] == "ret", lambda n: n["k"] == "call" and n.get("c") == "exit", start_is_node=False) is None
+    r.check(ok_fail, "load_mem_file/short-read-ends-the-run", db.loc(g, x), "fread(..) != 1 does not lead to exit()")
+    late = [n for n in g.all_nodes() if n["k"] == "call" and (n.get("c") or "").endswith("::resize") and "raw" in expr_str(g, n.get("o")) and g.dominates(x["i"], n["i"])]
+    r.check(not late, "load_mem_file/no-resize-after-read", db.loc(g, late[0] if late else x), "fm.raw is resized after the read: a prefix of the file is "
+            "accepted as the file")
+    r.floor(6)
+
+
 def rule_no_address_dependence(ctx):
     db = ctx.db
     r = ctx.rule("no-address-dependence", "no <,>,<=,>= between pointer operands, no iteration over a container keyed by a pointer type, "
@@ -343,4 +398,4 @@ def rule_delivery_independence(ctx):
     c11.rule_reset(ctx, rid="C11.reset")
 
 
-RULES = [rule_funnel, rule_observers_pure, rule_no_ambient_input, rule_no_address_dependence, rule_delivery_independence, rule_compare_every_byte_read]
+RULES = [rule_funnel, rule_observers_pure, rule_no_ambient_input, rule_no_address_dependence, rule_delivery_independence, rule_compare_every_byte_read, rule_input_read_complete]
